@@ -726,11 +726,18 @@ def run_helper(case, rec, rng, path, index, d):
         try:
             ro = Workspace(path, mode="r")
             rec.see("reader-handle-mode:" + ro.geoh5.mode)
+            if (case["i"] // 13) % 2 == 0:
+                # the `with ws.open():` idiom on a workspace that is open already: a warning, and the session stays what it was
+                if (case["i"] // 26) % 2 == 0:
+                    ro.open()
+                else:
+                    ro.open(mode="r+")
+                rec.see("redundant-open-on-the-reader")
             e = ro.get_entity(obj_uid)[0]
             from geoh5py.objects import Points
 
             writes = [("rename", lambda: setattr(e, "name", "x")), ("create", lambda: Points.create(ro, vertices=np.zeros((2, 3)), name="new")), ("remove", lambda: ro.remove_entity(ro.get_entity(obj_uid)[0])), ("header", lambda: setattr(ro, "ga_version", "9.9"))]
-            for wname, fn in writes:
+            for wname, fn in [w for w in writes for _ in (0, 1)]:  # every attempt is made twice: a refused call has no lasting effect
                 exc = None
                 try:
                     fn()
